@@ -50,22 +50,30 @@ func Addr(port int) string { return fmt.Sprintf("127.0.0.1:%d", port) }
 // Start creates a member, registers the states (before joining, as cmd/alertmanager does) and joins the known
 // members. The returned peer must be stopped with Leave.
 func Start(name string, port int, known []string, states []NamedState) (*cluster.Peer, error) {
+	p, _, err := StartWithChannels(name, port, known, states)
+	return p, err
+}
+
+// StartWithChannels is Start that also returns the broadcast channel AddState created for each state key (to wire a
+// state's SetBroadcast to it, as cmd/alertmanager does).
+func StartWithChannels(name string, port int, known []string, states []NamedState) (*cluster.Peer, map[string]cluster.ClusterChannel, error) {
 	lg := slog.New(slog.NewTextHandler(io.Discard, nil))
 	reg := prometheus.NewRegistry()
 	p, err := cluster.Create(lg, reg, Addr(port), "", known, false,
 		time.Hour, 200*time.Millisecond, 5*time.Second, 2*time.Second, 500*time.Millisecond, time.Second,
 		nil, true, "", name)
 	if err != nil {
-		return nil, err
+		return nil, nil, err
 	}
+	chs := map[string]cluster.ClusterChannel{}
 	for _, s := range states {
-		p.AddState(s.Key, s.State, reg)
+		chs[s.Key] = p.AddState(s.Key, s.State, reg)
 	}
 	if err := p.Join(0, 0); err != nil && len(known) > 0 {
 		p.Leave(time.Second)
-		return nil, err
+		return nil, nil, err
 	}
-	return p, nil
+	return p, chs, nil
 }
 
 // WaitFor polls f until it is true or d has passed.
